@@ -105,10 +105,10 @@ def diff(want, got, dec, approx, path="repr"):
         return None
     if k == "neg":
         return diff(want["a"], got["a"], dec, approx, path + ">-")
-    if k == "dict":
-        if [x["key"] for x in want["items"]] != [x["key"] for x in got["items"]]:
+    if k == "dict":      # a mapping: the order of its items carries no meaning (reprlib prints them sorted)
+        if sorted(x["key"] for x in want["items"]) != sorted(x["key"] for x in got["items"]):
             return f"{path}: keys {[x['key'] for x in got['items']]}, expected {[x['key'] for x in want['items']]}"
-        for a, b in zip(want["items"], got["items"]):
+        for a, b in zip(sorted(want["items"], key=lambda x: x["key"]), sorted(got["items"], key=lambda x: x["key"])):
             d = diff(a["val"], b["val"], dec, approx, f"{path}{{{a['key']}}}")
             if d:
                 return d
@@ -117,6 +117,15 @@ def diff(want, got, dec, approx, path="repr"):
     if key and want[key] != got[key]:
         return f"{path}: {got[key]!r}, expected {want[key]!r}"
     return None
+
+
+def unordered(e):
+    """the own variables of a Function term are a mapping: compare them in a canonical order"""
+    e = json.loads(json.dumps(e))
+    for v in e["inputs"] + e["outputs"]:
+        for t in v["terms"]:
+            t["fv"] = sorted(t.get("fv", []), key=lambda x: x["n"])
+    return e
 
 
 def kw(tree, name):
@@ -198,7 +207,7 @@ def check_case(ctx, fl, c, rng, origin, approx=False, real=None, heavy=False):
                 i, x, y = c14.first_diff(f2.split("\n"), f1.split("\n"))
                 ctx.violation("repr/rebuilt-engine/fll-differs", dict(case, code=text[:3000]), y, x, note=f"line {i}: '{y}' became '{x}'")
                 continue
-            if not approx and fll.project(fl, rebuilt, dec) != c["canon"]:
+            if not approx and unordered(fll.project(fl, rebuilt, dec)) != unordered(c["canon"]):
                 ctx.violation("repr/rebuilt-engine/structure", dict(case, code=text[:3000]), c["canon"], fll.project(fl, rebuilt, dec),
                               note=str(c14.where(c["canon"], fll.project(fl, rebuilt, dec))))
                 continue
